@@ -398,6 +398,9 @@ pub fn truncate_and_round(
         return (digit_count, false);
     };
 
+    // The leading zeros, for values below 1, are not significant digits,
+    // so they need to be added to the number of digits we keep.
+    let max_digits = max_digits + ltrim_char_count(&buffer[start..end], b'0');
     if max_digits >= digit_count {
         return (digit_count, false);
     }
@@ -405,12 +408,6 @@ pub fn truncate_and_round(
         // Don't round input, just shorten number of digits emitted.
         return (max_digits, false);
     }
-
-    // Need to add the number of leading zeros to the digits `digit_count`.
-    let max_digits = {
-        let digits = &mut buffer[start..start + max_digits];
-        max_digits + ltrim_char_count(digits, b'0')
-    };
 
     // We need to round-nearest, tie-even, so we need to handle
     // the truncation **here**. If the representation is above
